@@ -148,6 +148,73 @@ theorem clone_readsRight (cfg : Hdrs) (acts : List Act) : readsRight true cfg ac
   rw [← hv, List.getElem?_map, hnew]
   simp [hh]
 
+/-! ### end-of-pass reset: a fresh map or the old one emptied in place (round 3) -/
+
+theorem stepRefR_fresh (cfg : Hdrs) (s : RefState) (a : Act) : stepRefR .fresh cfg s a = stepRef true cfg s a := by
+  cases a with
+  | dec e => cases e <;> rfl
+  | read j => rfl
+
+/-- emptying the accumulator in place is one more step that keeps the invariant: no delivered ammo holds that cell -/
+theorem step_cleared (cfg : Hdrs) (s : RefState) (h : Hdrs) (inv : HeapInv s h) (a : Act) :
+    ∃ h1, HeapStep cfg s (stepRefR .cleared cfg s a) h h1 a := by
+  cases a with
+  | dec e =>
+    cases e with
+    | hdr k v => exact step_clone cfg s h inv (.dec (.hdr k v))
+    | req am => exact step_clone cfg s h inv (.dec (.req am))
+    | newPass =>
+      refine ⟨[], ⟨inv.accLt, upd_same _ _ _, inv.outOk⟩, ⟨[], by simp [stepRefR], by simp [decEvs, valueOut]⟩, ?_,
+        ⟨[], by simp [stepRefR], by simp⟩⟩
+      intro x hx
+      exact upd_other _ _ _ _ (inv.outOk x hx).2
+  | read j => exact step_clone cfg s h inv (.read j)
+
+theorem runRefR_cons (r : PassReset) (cfg : Hdrs) (s : RefState) (a : Act) (l : List Act) :
+    runRefR r cfg s (a :: l) = runRefR r cfg (stepRefR r cfg s a) l := rfl
+
+theorem run_cleared (cfg : Hdrs) : ∀ (acts : List Act) (s : RefState) (h : Hdrs), HeapInv s h →
+    HeapRun cfg s (runRefR .cleared cfg s acts) h acts := by
+  intro acts
+  induction acts with
+  | nil =>
+    intro s h _
+    exact ⟨⟨[], by simp [runRefR], by simp [decEvs, valueOut]⟩, fun _ _ => rfl, ⟨[], by simp [runRefR], by simp⟩⟩
+  | cons a r ih =>
+    intro s h inv
+    obtain ⟨h1, S⟩ := step_cleared cfg s h inv a
+    rw [runRefR_cons]
+    exact heapRun_trans cfg s _ _ h h1 a r S (ih _ _ S.inv1)
+
+theorem runRefR_fresh (cfg : Hdrs) : ∀ (acts : List Act) (s : RefState),
+    runRefR .fresh cfg s acts = runRef true cfg s acts
+  | [], _ => rfl
+  | a :: r, s => by rw [runRefR_cons, runRef_cons, stepRefR_fresh, runRefR_fresh cfg r]
+
+/-- with either way of forgetting, every `BuildRequest` sees the value-model header set -/
+theorem reset_readsRight (reset : PassReset) (hf : reset.forgets = true) (cfg : Hdrs) (acts : List Act) :
+    readsRightR reset cfg acts := by
+  cases reset with
+  | fresh =>
+    intro jh hjh
+    rw [runRefR_fresh] at hjh
+    exact clone_readsRight cfg acts jh hjh
+  | cleared =>
+    intro jh hjh
+    have R := run_cleared cfg acts RefState.init [] heapInv_init
+    obtain ⟨new, ho, hv⟩ := R.outs
+    obtain ⟨nr, hr, hn⟩ := R.reads
+    have hjh' : jh ∈ nr := by
+      rw [hr] at hjh; simpa [RefState.init] using hjh
+    obtain ⟨x, hx, hh⟩ := hn jh hjh'
+    have hnew : new[jh.1]? = some x := by
+      rw [ho] at hx; simpa [RefState.init] using hx
+    unfold valueHdrs
+    rw [← hv, List.getElem?_map, hnew]
+    simp [hh]
+  | kept => cases hf
+  | other w => cases hf
+
 /-! ### the decoder's events for a list of entries, pass after pass -/
 
 /-- the events of one pass over a file rendered from `items` (raw frames have no header set) -/
